@@ -2,7 +2,7 @@
 from checks import pipe
 
 PROPS = [("Moyo.Props.C02", "Moyo/Props/C02.lean"), ("Moyo.Props.C01Stages", "Moyo/Props/C01Stages.lean"),
-         ("Moyo.Props.C02Stages", "Moyo/Props/C02Stages.lean")]
+         ("Moyo.Props.C02Stages", "Moyo/Props/C02Stages.lean"), ("Moyo.Props.C02Bravais", "Moyo/Props/C02Bravais.lean")]
 
 
 def nontrivial(p, line):
